@@ -42,7 +42,7 @@ META = {
             "modelled (box meshes are exercised by the oracle only); the per-geom distances and the bounding-sphere / "
             "bounding-angle culling of mj_multiRay are inputs of the hand model: soundness of the culling is a hypothesis of "
             "multiRay_eq_map_ray and is sampled by the oracle, which finds it violated on the current tree (keys "
-            "c16:multiray-body-sphere-center, c16:multiray-visual-geom-culled, c16:multiray-short-vec).",
+            "c16:multiray-body-sphere-center, c16:multiray-visual-geom-culled, c16:multiray-cutoff-rbound, c16:multiray-short-vec).",
 }
 
 PLANE, HFIELD, SPHERE, CAPSULE, ELLIPSOID, CYLINDER, BOX, MESH = (E("mjGEOM_PLANE"), E("mjGEOM_HFIELD"), E("mjGEOM_SPHERE"),
@@ -617,6 +617,12 @@ def gen_scene_stream(ctx, nscene, nsrc, nray):
 
 
 def parse_scene(out):
+    out, btxt = out.split(" | ")
+    bodies = []
+    for p in btxt.split(" ; ")[1:]:
+        w = p.split()
+        bodies.append({"bvhadr": int(w[0]), "center": [float(x) for x in w[1:4]], "half": [float(x) for x in w[4:7]],
+                       "xipos": [float(x) for x in w[7:10]], "ximat": [float(x) for x in w[10:19]]})
     parts = out.split(" ; ")
     n = int(parts[0])
     geoms = []
@@ -628,7 +634,39 @@ def parse_scene(out):
              "size": [float(x) for x in w[11:14]], "pos": [float(x) for x in w[14:17]], "mat": [float(x) for x in w[17:26]]}
         geoms.append(g)
     assert len(geoms) == n
-    return geoms
+    return geoms, bodies
+
+
+def sphere_test_misses(center, ssz, pnt, vec):
+    """ray_sphere(center, NULL, ssz, pnt, vec, NULL) < 0, with the operations of the C code"""
+    dif = [pnt[0] - center[0], pnt[1] - center[1], pnt[2] - center[2]]
+    a = vec[0] * vec[0] + vec[1] * vec[1] + vec[2] * vec[2]
+    b = vec[0] * dif[0] + vec[1] * dif[1] + vec[2] * dif[2]
+    c = dif[0] * dif[0] + dif[1] * dif[1] + dif[2] * dif[2] - ssz
+    det = b * b - a * c
+    if det < 0 or a < MINVAL:
+        return True
+    det = math.sqrt(det)
+    return (-b - det) / a < 0 and (-b + det) / a < 0
+
+
+def classify_multi_mismatch(g, body, pnt, vec):
+    """why mj_multiRay lost geom g (which mj_ray hits): reproduces the body-level bounding-sphere test of mju_singleRay
+    with the centre as coded (centre + xipos) and with the centre rotated into the world frame (ximat * centre + xipos)"""
+    if body["bvhadr"] < 0:
+        return None
+    h = body["half"]
+    ssz = h[0] * h[0] + h[1] * h[1] + h[2] * h[2]
+    coded = [body["center"][i] + body["xipos"][i] for i in range(3)]
+    rc = matvec(body["ximat"], body["center"])
+    true = [rc[i] + body["xipos"][i] for i in range(3)]
+    if not sphere_test_misses(coded, ssz, pnt, vec):
+        return None
+    if not sphere_test_misses(true, ssz, pnt, vec):
+        return "center"
+    if g["contype"] == 0 and g["conaffinity"] == 0:
+        return "visual"
+    return None
 
 
 def parse_ray(out):
@@ -707,7 +745,7 @@ def run_scenes(ctx, impl, drv, nscene, nsrc, nray, dev, found, stats, max_report
                 cur["ok"] = False
             continue
         if k == "scene":
-            cur["geoms"] = parse_scene(o)
+            cur["geoms"], cur["bodies"] = parse_scene(o)
             for g in cur["geoms"]:
                 stats["geom_types"][g["type"]] = stats["geom_types"].get(g["type"], 0) + 1
             continue
@@ -817,6 +855,7 @@ def run_scenes(ctx, impl, drv, nscene, nsrc, nray, dev, found, stats, max_report
                     # the C code reports -1 and leaves geomid / normal untouched; mj_ray accepts |vec| >= mjMINVAL
                     if rr is not None:
                         stats["short_vec_rays"] += 1
+                    if rr is not None and (db, gid) != rr[1]["R"]:
                         report("c16:multiray-short-vec",
                                "mj_multiRay treats a direction with |vec|^2 < mjMINVAL (|vec| < 3.2e-8) as a miss: dist %r, geomid entry %s; "
                                "mj_ray accepts the same direction (|vec| >= mjMINVAL) and returns (%r, %d)"
@@ -835,18 +874,28 @@ def run_scenes(ctx, impl, drv, nscene, nsrc, nray, dev, found, stats, max_report
                         if not weaker_ok:
                             g = geoms[rgid] if 0 <= rgid < len(geoms) else None
                             farther = rgid >= 0 and (dm == -1.0 or dm > rd)
-                            if farther and g is not None and g["contype"] == 0 and g["conaffinity"] == 0 and g["bvhadr"] != -1:
+                            why = classify_multi_mismatch(g, cur["bodies"][g["body"]], m["pnt"], v) if (farther and g is not None) else None
+                            if farther and g is not None and gel[rgid] == 1 and rr[1]["geoms"][rgid]["elim"] == 0:
+                                # mju_multiRayPrepare eliminated the geom by the cutoff test although it is hit within the cutoff
+                                why = "cutoff"
+                                key = "c16:multiray-cutoff-rbound"
+                                what = ("mj_multiRay(cutoff=%r) ignores geom %d (type %d, geom_rbound %r) that mj_ray hits at world distance %r <= cutoff: "
+                                        "mju_multiRayPrepare eliminates it because |geom_xpos - pnt| > cutoff + geom_rbound (rbound is 0 for planes): "
+                                        "mj_ray (%r, %d), mj_multiRay (%r, %d)" % (m["cutoff"], rgid, g["type"], g["rbound"], wd, rd, rgid, dm, gid))
+                            elif why == "visual":
                                 key = "c16:multiray-visual-geom-culled"
-                                what = ("mj_multiRay misses visual-only geom %d (contype=conaffinity=0, not in the body BVH whose "
-                                        "bounding sphere culls the body): mj_ray (%r, %d), mj_multiRay (%r, %d)" % (rgid, rd, rgid, dm, gid))
-                            elif farther:
+                                what = ("mj_multiRay misses visual-only geom %d (contype=conaffinity=0, not in the body BVH whose root "
+                                        "bounding sphere culls body %d for this ray): mj_ray (%r, %d), mj_multiRay (%r, %d)"
+                                        % (rgid, g["body"], rd, rgid, dm, gid))
+                            elif why == "center":
                                 key = "c16:multiray-body-sphere-center"
-                                what = ("mj_multiRay drops geom %d that mj_ray hits (body-level bounding-sphere cull of "
-                                        "mju_singleRay): mj_ray (%r, %d), mj_multiRay (%r, %d)" % (rgid, rd, rgid, dm, gid))
+                                what = ("mj_multiRay drops geom %d that mj_ray hits: the bounding-sphere cull of body %d in mju_singleRay uses "
+                                        "centre = bvh_aabb centre + xipos (not rotated by ximat) and misses, the rotated centre does not: "
+                                        "mj_ray (%r, %d), mj_multiRay (%r, %d)" % (rgid, g["body"], rd, rgid, dm, gid))
                             else:
                                 key = "c16:multiray-disagrees"
                                 what = "mj_multiRay (%r, %d) differs from mj_ray (%r, %d)" % (dm, gid, rd, rgid)
-                            skip_tie = True
+                            skip_tie = skip_tie or why is not None
                             report(key, what, rp({"ray_index": ri, "vec": v, "ray_op": rr[0]["line"]}))
                     if nres[ri][1] != rr[1]["N"][1] and same:
                         report("c16:multiray-normal", "mj_multiRay normal differs from mj_ray's (ray %d)" % ri, rp())
@@ -1033,7 +1082,7 @@ def run(ctx):
     run_geomray(ctx, impl, 250000 if thorough else 12000, dev, found, stats)
     # findings of mj_multiRay's culling (reported to the coordinator, see final report) go last so that any other
     # failure is among the first entries of the replay file
-    late = ("c16:multiray-short-vec", "c16:multiray-body-sphere-center", "c16:multiray-visual-geom-culled")
+    late = ("c16:multiray-short-vec", "c16:multiray-body-sphere-center", "c16:multiray-visual-geom-culled", "c16:multiray-cutoff-rbound")
     for f in sorted(found, key=lambda f: f["key"] in late):
         ctx.oracle_failure(f["key"], f["what"], f["replay"])
     ctx.extra["oracle"] = {k: v for k, v in stats.items()}
